@@ -254,6 +254,32 @@ def _list_operands(node, what):
     raise Unsupported("%s is not a list display: %s" % (what, _u(node)))
 
 
+def _dexpr(node, table, what, listy=False):
+    """shape of an expression yielding a container: a display (always a NEW object), a bare name (the very
+    object), a conditional expression of such -> (Lean `DExpr` term, operands of the leftmost display or None)"""
+    if isinstance(node, ast.IfExp):
+        t, ops1 = _dexpr(node.body, table, what, listy)
+        e, ops2 = _dexpr(node.orelse, table, what, listy)
+        return "(DExpr.ite %s %s)" % (t, e), (ops1 if ops1 is not None else ops2)
+    if isinstance(node, ast.Name) or (isinstance(node, (ast.Call, ast.Attribute)) and _u(node) in table):
+        if _u(node) not in table:
+            raise Unsupported("%s: unknown operand %s" % (what, _u(node)))
+        return "(DExpr.alias %s)" % table[_u(node)], None
+    if listy:
+        pops = _list_operands(node, what)
+        names = []
+        for k, src in pops:
+            if src not in table:
+                raise Unsupported("%s: unknown operand %s" % (what, src))
+            names.append(table[src])
+        return "(DExpr.display %s)" % _lean_list(names), pops
+    ops = _dict_operands(node, what)
+    for o in ops:
+        if o not in table:
+            raise Unsupported("%s: unknown operand %s" % (what, o))
+    return "(DExpr.display %s)" % _lean_list([table[o] for o in ops]), ops
+
+
 def _no_mutation(fn, names, what):
     """no statement of fn mutates one of the named containers"""
     for node in ast.walk(fn):
@@ -346,15 +372,18 @@ def generate():
             raise Unsupported("bind unpacking: " + _u(asg))
         if len(call.args) != 3 or _u(call.args[1]) != "*options":
             raise Unsupported("bind: Logger arguments " + _u(call))
-        ops = _dict_operands(call.args[2], "bind's new extra")
         table = {"extra": "Src.old", "kwargs": "Src.kwargs"}
-        if sorted(ops) != ["extra", "kwargs"]:
+        bind_expr, ops = _dexpr(call.args[2], table, "bind's new extra")
+        if ops is None or sorted(ops) != ["extra", "kwargs"]:
             raise Unsupported("bind operands " + repr(ops))
         if bind.args.kwarg is None or bind.args.kwarg.arg != "kwargs":
             raise Unsupported("bind has no **kwargs")
         _no_mutation(bind, {"extra", "options"}, "bind")
         body += "/-- `bind`: %s -/\ndef bindOperands : List Src := %s\n\n" % (
             _u(call.args[2]), _lean_list([table[o] for o in ops]))
+        body += ("/-- `bind`: shape of the expression that becomes the new logger's `extra` (a display builds a NEW "
+                 "dict; a bare name would hand over the receiver's own dict) -/\n"
+                 "def bindExtraExpr : DExpr Src := %s\n\n" % bind_expr)
 
         # ---------------------------------------------------------------- patch
         patch = find_func(cls, "patch")
@@ -385,12 +414,15 @@ def generate():
             raise Unsupported("patch unpacking: " + _u(asg))
         if len(call.args) != 4 or _u(call.args[1]) != "*options" or _u(call.args[3]) != "extra":
             raise Unsupported("patch: Logger arguments " + _u(call))
-        pops = _list_operands(newlist, "patch's new patcher list")
-        if sorted(pops) != [("item", "patcher"), ("star", "patchers")]:
+        patch_expr, pops = _dexpr(newlist, {"patchers": "PSrc.old", "patcher": "PSrc.new"},
+                                  "patch's new patcher list", listy=True)
+        if pops is None or sorted(pops) != [("item", "patcher"), ("star", "patchers")]:
             raise Unsupported("patch operands " + repr(pops))
         _no_mutation(patch, {"patchers", "extra", "options"}, "patch")
         body += "/-- `patch`: %s -/\ndef patchOperands : List PSrc := %s\n\n" % (
             _u(newlist), _lean_list(["PSrc.old" if k == "star" else "PSrc.new" for k, _ in pops]))
+        body += ("/-- `patch`: shape of the expression that becomes the new logger's patcher list -/\n"
+                 "def patchListExpr : DExpr PSrc := %s\n\n" % patch_expr)
         body += ("/-- `patch`: is the new patcher skipped when an equal one is already attached "
                  "(`if patcher not in patchers`)? -/\ndef patchDedup : Bool := %s\n\n" % ("true" if dedup else "false"))
 
@@ -525,12 +557,14 @@ def generate():
             display = pre[0].value.args[0]
         if display is None:
             raise Unsupported("contextualize: prologue is not `token = context.set({...})`: %r" % [_u(s) for s in pre])
-        cops = _dict_operands(display, "contextualize's new context")
         ctable = {"context.get()": "Src.old", "kwargs": "Src.kwargs"}
-        if sorted(cops) != ["context.get()", "kwargs"]:
+        ctx_expr, cops = _dexpr(display, ctable, "contextualize's new context")
+        if cops is None or sorted(cops) != ["context.get()", "kwargs"]:
             raise Unsupported("contextualize operands " + repr(cops))
         body += "/-- `contextualize`: %s -/\ndef ctxOperands : List Src := %s\n\n" % (
             _u(display), _lean_list([ctable[o] for o in cops]))
+        body += ("/-- `contextualize`: shape of the expression handed to `context.set` -/\n"
+                 "def ctxValueExpr : DExpr Src := %s\n\n" % ctx_expr)
 
         # ---------------------------------------------------------------- _log
         lg = find_func(cls, "_log")
@@ -565,10 +599,29 @@ def generate():
                 if [_u(x) for x in s.body] != ["log_record['extra'].update(kwargs)"] or s.orelse:
                     raise Unsupported("_log: capture branch is %r" % [_u(x) for x in s.body])
                 idx["capture"] = i
-            elif isinstance(s, ast.If) and _u(s.test) == "SELF._core.patcher":
+                idx["KwStage.capture"] = i
+            elif isinstance(s, ast.If) and _u(s.test) in ("SELF._core.patcher", "SELF._core.patcher is not None"):
                 if [_u(x) for x in s.body] != ["SELF._core.patcher(log_record)"] or s.orelse:
                     raise Unsupported("_log: core.patcher branch changed")
                 idx["Phase.corePatcher"] = i
+                guard_kind = "PatcherGuard.truthy" if _u(s.test) == "SELF._core.patcher" else "PatcherGuard.isNotNone"
+            elif isinstance(s, ast.If) and _u(s.test) == "lazy" and not s.orelse:
+                # `kwargs = {key: value() for key, value in kwargs.items()}` (each callable called exactly once)
+                for x in s.body:
+                    if isinstance(x, ast.Assign) and _u(x.targets[0]) == "kwargs":
+                        v = x.value
+                        ok = isinstance(v, ast.DictComp) and len(v.generators) == 1 and not v.generators[0].ifs \
+                            and _u(v.generators[0].iter) == "kwargs.items()" \
+                            and isinstance(v.generators[0].target, ast.Tuple) and len(v.generators[0].target.elts) == 2
+                        if ok:
+                            kn, vn = [_u(e) for e in v.generators[0].target.elts]
+                            ok = _u(v.key) == kn and _u(v.value) == vn + "()"
+                        if not ok:
+                            raise Unsupported("_log: lazy evaluation of kwargs changed: " + _u(x)[:80])
+                        idx["KwStage.lazyEval"] = i
+            elif isinstance(s, ast.If) and _u(s.test) == "record" and not s.orelse:
+                if s.body and _u(s.body[-1]) == "kwargs.update(record=log_record)":
+                    idx["KwStage.recordInject"] = i
             elif isinstance(s, ast.For) and _u(s.iter) == "patchers":
                 if [_u(x) for x in s.body] != ["%s(log_record)" % _u(s.target)] or s.orelse:
                     raise Unsupported("_log: patchers loop changed")
@@ -578,9 +631,12 @@ def generate():
                     raise Unsupported("_log: handler loop changed")
                 idx["Phase.handlers"] = i
         need = ["unpack", "record", "capture", "Phase.corePatcher", "Phase.patchers", "Phase.handlers"]
-        missing = [n for n in need if n not in idx]
+        missing = [n for n in need + ["KwStage.lazyEval", "KwStage.recordInject"] if n not in idx]
         if missing:
             raise Unsupported("_log: statements not found at top level: %r" % missing)
+        if not (idx["record"] < min(idx["KwStage.lazyEval"], idx["KwStage.recordInject"])
+                and max(idx["KwStage.lazyEval"], idx["KwStage.recordInject"]) < min(idx[p] for p in need[3:])):
+            raise Unsupported("_log: lazy evaluation / record injection are not between the record display and the phases")
         if not (idx["unpack"] < idx["record"] < idx["capture"] < min(idx[p] for p in need[3:])):
             raise Unsupported("_log: record display / capture update are not before the trailing phases")
         phases = sorted(need[3:], key=lambda p: idx[p])
@@ -593,9 +649,9 @@ def generate():
                 extra_val = v
         if extra_val is None:
             raise Unsupported("_log: no 'extra' entry in the record display")
-        lops = _dict_operands(extra_val, "record['extra']")
         ltable = {"SELF._core.extra": "Layer.core", "context.get()": "Layer.ctx", "extra": "Layer.bound"}
-        if sorted(lops) != sorted(ltable):
+        rec_expr, lops = _dexpr(extra_val, ltable, "record['extra']")
+        if lops is None or sorted(lops) != sorted(ltable):
             raise Unsupported("_log extra operands " + repr(lops))
         # nothing else touches log_record['extra'] / rebinding of extra, kwargs->extra between record and phases
         for s in top[idx["record"] + 1:len(top) - 3]:
@@ -612,6 +668,13 @@ def generate():
         body += "/-- `_log`: \"extra\": %s -/\ndef recordLayers : List Layer := %s\n\n" % (
             _u(extra_val), _lean_list([ltable[o] for o in lops]))
         body += "/-- `_log`: order of the trailing statements -/\ndef logPhases : List Phase := %s\n\n" % _lean_list(phases)
+        body += ("/-- `_log`: shape of the expression stored as `log_record[\"extra\"]` (a display: a NEW dict for every "
+                 "logging call) -/\ndef recordExtraExpr : DExpr Layer := %s\n\n" % rec_expr)
+        body += ("/-- `_log`: the test that guards the call of the configured patcher (`if core.patcher:` is the truth "
+                 "value of the callable) -/\ndef corePatcherGuard : PatcherGuard := %s\n\n" % guard_kind)
+        stages = sorted(["KwStage.lazyEval", "KwStage.capture", "KwStage.recordInject"], key=lambda p: idx[p])
+        body += ("/-- `_log`: order of the statements that evaluate lazy kwargs, copy kwargs into `extra`, and add the "
+                 "record itself to kwargs -/\ndef kwStages : List KwStage := %s\n\n" % _lean_list(stages))
 
         # ---------------------------------------------------------------- **kwargs signatures
         # every public method that forwards **kwargs into `extra`: which keyword names do its OWN named
